@@ -1,6 +1,6 @@
 (* C03 — Every lint points into the text; every suggestion is a well-defined local edit.
    Pinned statements only. *)
-Require Import Base Suggestion ListLemmas SuggestionProofs SpanSchemas.
+Require Import Base Suggestion ListLemmas SuggestionProofs SpanSchemas Tables_spanexprs SpanSites.
 
 (* the edit primitive: total on spans inside the text *)
 Theorem C03_apply_total : forall s sp src, span_in (length src) sp -> is_ok (apply s sp src) = true.
@@ -100,6 +100,17 @@ Check C03_token_derived_in_bounds : forall n,
   (forall a b, span_in n a -> span_in n b -> send a <= sstart b ->
      exists s, span_new (sstart a) (send b) = Ok s /\ span_in n s).
 Print Assumptions C03_token_derived_in_bounds.
+
+(* the tie for rule bodies: the table of every site in harper-core/src/linting/*.rs where a span is
+   computed (rather than copied from a token or taken as a hull) is regenerated from the sources on
+   every run; each site must fall under one of the schemas of C03_token_derived_in_bounds.  A new
+   kind of span arithmetic in a rule makes this obligation fail. *)
+Theorem C03_rule_span_sites_known :
+  forallb (fun e => schema_known (snd e)) rule_span_sites = true /\ 40 <= rule_files_scanned.
+Proof. exact rule_span_sites_known. Qed.
+Check C03_rule_span_sites_known :
+  forallb (fun e => schema_known (snd e)) rule_span_sites = true /\ 40 <= rule_files_scanned.
+Print Assumptions C03_rule_span_sites_known.
 
 (* non-vacuity: all three kinds on a concrete text, incl. the equal-length in-place path, a span
    touching the end, and the rejected case *)
